@@ -2,7 +2,7 @@
 
 use crate::header::validate_record_layout;
 use crate::{DbcHeader, Error, Result};
-use std::io::{Read, Seek, SeekFrom};
+use std::io::{Cursor, Read, Seek, SeekFrom};
 
 /// DBC file format version
 #[derive(Debug, Clone, Copy, PartialEq, Eq)]
@@ -49,6 +49,24 @@ impl DbcVersion {
             DbcVersion::WDB4 => *b"WDB4",
             DbcVersion::WDB5 => *b"WDB5",
         }
+    }
+}
+
+/// Offset of the first record in the complete file `data`.
+///
+/// The lazy, parallel and memory-mapped access paths are handed the file content together
+/// with a version-neutral [`DbcHeader`], which no longer says how long the header of the
+/// file really is. The records follow the version-specific header (and, for extended WDB2
+/// headers, the index arrays), exactly where [`crate::DbcParser`] reads them. Data that
+/// does not start with a WDB2 or WDB5 header is laid out like a WDBC file.
+pub(crate) fn record_data_offset(data: &[u8]) -> u64 {
+    let mut cursor = Cursor::new(data);
+    match DbcVersion::detect(&mut cursor) {
+        Ok(DbcVersion::WDB2) => Wdb2Header::parse(&mut cursor)
+            .map(|header| header.record_data_offset())
+            .unwrap_or(DbcHeader::SIZE as u64),
+        Ok(DbcVersion::WDB5) => Wdb5Header::SIZE as u64,
+        _ => DbcHeader::SIZE as u64,
     }
 }
 
